@@ -87,6 +87,7 @@ def filter_tokens_between_tokens(lTokens, oStart, oEnd, oTokenMap):
     for oToken in lTokens:
         for iStart, iEnd in zip(lStart, lEnd):
             lReturn.extend(oTokenMap.get_token_indexes_between_indexes(oToken, iStart, iEnd))
+    lReturn.sort()
     return lReturn
 
 
@@ -105,6 +106,7 @@ def filter_tokens_between_tokens_unless_token_exists_between_them(lTokens, oStar
                     else:
                         lReturn.extend(oTokenMap.get_token_indexes_between_indexes(oToken, iStart, iEnd))
                         break
+    lReturn.sort()
     return lReturn
 
 
